@@ -18,6 +18,7 @@ EXPLANATION = (
     "Not decided: liveness of the helper task, timed suspension, priority inversion.")
 ASSUMPTIONS = ["thread_data::restore_state / set_state_tagged are compare-exchange based (decided in C01.R2)",
                "agent_ref::suspend/resume forward to execution_agent (virtual dispatch not followed)"]
+THOROUGH_CONFIGS = [["-UNDEBUG", "-DPIKA_DEBUG"]]
 FLOORS = {"C02.R1": 6, "C02.R2": 6, "C02.R3": 4, "C02.R4": 2, "C02.R5": 4}
 
 TSS = "pika::threads::detail::thread_schedule_state"
